@@ -19,4 +19,5 @@ class appendix(Command): # type: ignore
 
     def invoke(self, tex):
         self.ownerDocument.context.counters['section'].setcounter(0)
+        self.ownerDocument.context.counters['subsection'].setcounter(0)
         self.ownerDocument.context['thesection'] = type(self).thesection 
